@@ -79,6 +79,18 @@ def _match(entry, v):
     return bool(pat) and re.fullmatch(pat, v.site) is not None
 
 
+_KNOWN_CACHE = {}
+
+
+def is_known(prop, cls, site):
+    """True if an open known finding of `prop` matches (cls, site) - used by case functions to skip the
+    (expensive) minimisation of violations that will be attributed to a known finding anyway."""
+    if prop not in _KNOWN_CACHE:
+        _KNOWN_CACHE[prop] = load_known(prop)
+    v = Violation(cls, site, "", None)
+    return any(_match(e, v) for e in _KNOWN_CACHE[prop])
+
+
 def _case_wrapper(args):
     fn, param = args
     try:
